@@ -393,6 +393,9 @@ func (f *Frame) contractCall(st *State, r *Term, target *ssa.Function, tmap TMap
 			}
 		}
 	}
+	if !ct.Pure {
+		f.invalidateRegisters(st)
+	}
 	// results
 	sig := target.Signature
 	var rs []SVal
@@ -484,4 +487,19 @@ func standingInvariant(typeName string) string {
 		return "$p != nil ==> wf($p)"
 	}
 	return ""
+}
+
+// invalidateRegisters: a callee whose body is not executed here may itself call traced functions, so the
+// last-call registers are unknown afterwards.
+func (f *Frame) invalidateRegisters(st *State) {
+	var regs []string
+	for name := range f.ctx.eng.compSeen {
+		if strings.HasPrefix(name, "$lastarg!") || strings.HasPrefix(name, "$lastres!") {
+			regs = append(regs, name)
+		}
+	}
+	sort.Strings(regs)
+	for _, name := range regs {
+		st.heap[name] = f.ctx.fresh("reg", f.ctx.eng.compSeen[name])
+	}
 }
